@@ -49,6 +49,18 @@ CLAIMS = {
     note="This is the mechanism half of C01 (no skip / no reorder across ranges and blocks). Byte-identity of returned payloads to appended payloads needs the Block::write/read round-trip and the Writer units (not yet under contract) and the history lemma over the abstract log is not mechanised. Two genuine skip defects found here are fixed (ba1f615, e20c15e) and natively replayed; scenario family replay/core compares the real engine with the abstract log.",
     technique="contract-based deductive verification (Verus/Z3) of extracted regions/functions; native replay",
     design="4/C01"),
+ "C12": dict(
+    level="proof",
+    text="All tracker-table functions of allocator.rs (register_block, set_checkpointed_true, inc/add/lock/unlock/set_fully_allocated, get_state_snapshot, flush_check) and both allocation paths (get_next_available_block, alloc_block) are extracted with the static tables turned into an explicit Globals and proved against exact state-transformer contracts plus the counting invariant: per file, checkpoint counter = number of distinct checkpointed blocks registered for it, total = number of registered blocks. From it Verus proves that a path is sent to the reclaimer only when every block ever registered for that file is checkpointed, that allocation registers each block under its own file, and (on read_next and the batch-read planner) that only blocks lying entirely before the cursor are ever marked. Holds for any number of files, blocks and calls, in any order.",
+    note="Trusted: the statics/channel as one struct (R7), atomics as plain fields under A-SEQ, HashMap specs, String identity axiom; assumptions: fewer than 65535 blocks per file, allocator ids fresh in the process (this is exactly what fails across instances - see C13). Not covered: that 'cursor past the block' implies 'durably consumed' in AtLeastOnce mode, the positional cursor after a file was deleted (restart clause), background.rs deletion loop. Genuine defect fixed: non-idempotent counter (0009bb3).",
+    technique="contract-based deductive verification (Verus/Z3): data-structure invariant with set cardinalities over extracted real functions",
+    design="4/C12"),
+ "C13": dict(
+    level="proof",
+    text="Same units as C14 (instance roots are distinct directories strictly inside their data dirs whenever sanitised keys or data dirs differ) and C12 (tracker tables). The obligation that register_block binds the given id to the given path fails on the real code: ids restart at 1 in every instance while the table is process-global. This is a genuine isolation defect (another namespace's consumption deletes this namespace's unconsumed file); it is reproduced natively by replay/core c13_family and listed in known_findings.json. Every other tracker/allocator obligation is discharged.",
+    note="The claim is: the bookkeeping half of C13 is decided (violated, site-keyed finding), the directory half is proved. Not covered: the first-instance-wins global fsync schedule (GLOBAL_FSYNC_SCHEDULE.set result ignored), SharedMmapKeeper sharing, interleavings of instance operations beyond atomic steps.",
+    technique="contract-based deductive verification (Verus/Z3) of extracted real functions; native replay of the failing history",
+    design="4/C13"),
 }
 
 NOT_APPLICABLE = {
